@@ -115,13 +115,16 @@ def cross(run, d, bins, cases):
         d18.process(cases18[i:i + 1000])
     d18.finish()
     run.cov["collections_cases_over_five_containers"] = len(cases18)
+    # rebuilding a model in a graph object that held another one before (clear) / after removals: same answers as a recount
+    import props.c11 as c11
+    c11.removed_phase(run, d, bins, None)
 
 
 CHECKS = [chk_repeat, chk_recount]
 RULE = ("the same causal items (singletons and nested causaloids) loaded into a slice, Vec, VecDeque, BTreeMap (same iteration order) and HashMap; every CausableReasoning method after "
         "reason_all_causes (ordered containers; each call issued twice = repetition, and once through the wrapping causaloid) or after per-item evaluation (HashMap: order-insensitive "
         "answers, filters compared as id-sorted sets); causal graphs: reason_all_causes, the same on a CLONE of the graph, and again; every model is built twice (rebuild determinism), the ordered containers are compared pairwise, and every reasoning call of a multi-call history is re-issued "
-        "alone on a freshly rebuilt identical model (same verdict required). The assumption / inference / observation collections are compared across the five containers by C18's check, whose cases run "
+        "alone on a freshly rebuilt identical model (same verdict required). Graphs rebuilt in a cleared graph object or with removed causaloids are judged by C11's recount phase, whose cases run here as well. The assumption / inference / observation collections are compared across the five containers by C18's check, whose cases run "
         "here as well")
 
 
